@@ -172,7 +172,7 @@ impl Binder {
                 SelectItem::Wildcard(_) => {
                     select_list.append(&mut self.schema(from));
                 }
-                _ => todo!("bind select list"),
+                item => return Err(ErrorKind::Todo(format!("select item {item}")).into()),
             }
         }
         Ok(self.egraph.add(Node::List(select_list.into())))
